@@ -512,6 +512,10 @@ def run(ctx):
     c16.rule_r5(facts, c19._Retag(ctx, "C16.R5", "C14.R8"))      # read-ahead beyond what the output takes is invisible to the EOF decision
     ctx.floor("C14.R8", 2, "read(2) staging buffers of FileSource and SigMFSource (same rule as C16.R5)")
     c16.rule_r9(facts, ctx, rule_id="C14.R7", scope=lambda b: b.file in ("src/file_source.rs", "src/tcp_source.rs", "src/sigmf.rs", "src/au.rs"))
+    from . import c09, c19 as _c19
+    bodies14 = [b for b in facts.impl_bodies(BLOCK_TRAIT, "work") if b.file in ("src/au.rs", "src/file_source.rs", "src/tcp_source.rs", "src/sigmf.rs")]
+    c09.rule_r4(facts, _c19._Retag(ctx, "C09.R4", "C14.R12"), bodies14)     # an over-stated wait retires the decoder with bytes it could decode
+    ctx.floor("C14.R12", 3, "WaitForStream amounts of the codecs / byte sources compared with the tested threshold (same rule as C09.R4)")
     rule_r11(facts, ctx)
     ctx.ok("C14.R11", "au:scanned", "src/au.rs", "AuEncode::new and AuDecode::work located and scanned (undecided parts are listed as silent)")
     ctx.floor("C14.R11", 1, "AU header agreement: 6 instances decided today; a header built by a loop or a table is listed as not decided")
